@@ -269,6 +269,14 @@ def pick(items, i):
     raise IndexError(i)
 
 
+def pick_clamped(items, i):
+    """items[min(i, len(items) - 1)] for a symbolic i >= 0, by explicit case distinction (see pick)."""
+    for j in range(len(items) - 1):
+        if i == j:
+            return items[j]
+    return items[len(items) - 1]
+
+
 def info_with_matches(read, adapters):
     """ModificationInfo whose matches are dummy matches of the given adapters, in that order."""
     info = ModificationInfo(read)
